@@ -94,6 +94,11 @@ func EnvelopeChecksum(env Envelope) (ChecksumAlg, string, bool, error) {
 	}
 	switch alg {
 	case ChecksumNone:
+		// "none" means no additional checksum was requested; the envelope's
+		// mandatory sha256 still describes the blob and must be honoured.
+		if env.SHA256 != "" {
+			return ChecksumSHA256, env.SHA256, true, nil
+		}
 		return alg, "", false, nil
 	case ChecksumSHA256:
 		if env.Checksum != "" {
